@@ -277,7 +277,7 @@ class Stack:
 
         def handler(msg, addr):
             sim.rec("method", NODE_NAME, (mid, kind, addr))
-            if kind == "echo":
+            if kind in ("echo", "echo-obj"):
                 return bytes(msg.payload)
             if kind == "empty":
                 return b""
@@ -285,8 +285,17 @@ class Stack:
                 return None
             if kind == "malformed":
                 raise lib.service.MalformedMessageError("scripted")
+            if kind == "malformed-sub":
+                raise _PayloadTooShort("scripted")  # an application's own refinement of the library's exception
             raise core.HarnessError(kind)
 
+        if kind == "echo-obj":
+            # a handler that is a callable object and happens to be falsy (a call recorder derived from list)
+            class CallLog(list):
+                def __call__(self, msg, addr):
+                    return handler(msg, addr)
+
+            return CallLog()
         return handler
 
     def svc_setup(self):
@@ -497,6 +506,10 @@ class Result:
     pass
 
 
+class _PayloadTooShort(lib.service.MalformedMessageError):
+    pass
+
+
 NEIGHBOUR_ADDR = ("10.0.0.5", 30490)
 
 
@@ -513,7 +526,8 @@ def _neighbour(sim, ncfg):
         am = sd.DatagramProtocolAdapter(prot, is_multicast=True)
         sim.open_socket("M", NEIGHBOUR_ADDR, "u", au.datagram_received, ctx, tag, actor="M")
         sim.open_socket("M", NEIGHBOUR_ADDR, "m", am.datagram_received, ctx, tag, group=GROUP, actor="M")
-        svc = config.Service(0x7A7A, 1, 1, 0, eventgroups=frozenset([1]))
+        ids = ncfg.get("svc", [0x7A7A, 1, 1, 0])
+        svc = config.Service(*ids, options_1=tuple(lib_option(tuple(o)) for o in ncfg.get("opts", [])), eventgroups=frozenset([1]))
         inst = sd.ServiceInstance(svc, sd.ServerServiceListener(), prot.announcer, timings)
         prot.announcer.announce_service(inst)
         sim.keep.append(prot)
@@ -570,6 +584,8 @@ def execute(plan):
                 flag, sid = r.next(op["ch"])
             entries = [spec_entry(s) for s in op["e"]]
             data = refdec.enc_sd_message(entries, sid, reboot=flag, unicast=op.get("uf", True))
+            if "client" in op:
+                data = data[:8] + int(op["client"]).to_bytes(2, "big") + data[10:]  # the SOME/IP client id of the SD message
             if "e2" in op:
                 # a second SD message coalesced into the same datagram (TR_SOMEIP_00140), with the sender's next session id
                 flag2, sid2 = (flag, sid + 1) if "sess" in op else r.next(op["ch"])
